@@ -629,3 +629,107 @@ Proof.
   - rewrite IH. rewrite (scan_from_stop u A s B Hs). rewrite res_or_assoc. reflexivity.
 Qed.
 End Loops.
+
+(* ================================================================ nodes vs. spec entries *)
+Section Bridge.
+Variable m : module.
+
+Definition corr (v : node) (e : entry) : Prop :=
+  n_opt v = fst e /\ forall x, ntags m (n_kind v) x <-> snd e x.
+
+Lemma mk_nodes_entries : forall auto p l pos num,
+  Forall2 corr (mk_nodes auto p pos num l) (entries m auto num l).
+Proof.
+  induction l as [|[c t] l IH]; intros pos num; simpl; constructor.
+  - split; [reflexivity|]. intro x. simpl. unfold comp_tag, sp_tag. tauto.
+  - apply IH.
+Qed.
+
+Lemma marker_corr : forall p, corr {| n_path := p; n_opt := false; n_kind := NExt |} marker_entry.
+Proof. intro p. split; [reflexivity|]. intro x. simpl. tauto. Qed.
+
+(* generic reading of both "pairwise" and "runs" on a list of entries *)
+Definition pairs_ok (is_seq : bool) (E : list entry) : Prop :=
+  forall E1 a pre b post, E = E1 ++ a :: pre ++ b :: post ->
+    (is_seq = true -> fst a = true /\ Forall (fun e => fst e = true) pre) ->
+    disjoint (snd a) (snd b).
+
+Lemma runs_ok_pairs : forall E, runs_ok E <-> pairs_ok true E.
+Proof.
+  intro E. unfold runs_ok, pairs_ok. split; intros H E1 a pre b post Eq.
+  - intro C. destruct (C eq_refl) as [C1 C2]. eapply H; eassumption.
+  - intros C1 C2. eapply H; [exact Eq|]. intros _. auto.
+Qed.
+
+Lemma pairwise_pairs : forall E, pairwise_disjoint E <-> pairs_ok false E.
+Proof.
+  intro E. unfold pairwise_disjoint, pairs_ok. split.
+  - intro H. induction H as [|x l Hx Hl IH]; intros E1 a pre b post Eq _.
+    + destruct E1; discriminate.
+    + destruct E1 as [|y E1]; simpl in Eq; inversion Eq; subst.
+      * rewrite Forall_forall in Hx. apply Hx. apply in_or_app. right. left. reflexivity.
+      * eapply IH; [reflexivity | intro; discriminate].
+  - induction E as [|x l IH]; intro H; constructor.
+    + apply Forall_forall. intros b Hin. apply in_split in Hin. destruct Hin as [pre [post Eq]].
+      apply (H [] x pre b post); [simpl; rewrite Eq; reflexivity | intro; discriminate].
+    + apply IH. intros E1 a pre b post Eq C.
+      apply (H (x :: E1) a pre b post); [simpl; rewrite Eq; reflexivity | exact C].
+Qed.
+
+Lemma corr_all_opt : forall L E, Forall2 corr L E ->
+  (all_opt L <-> Forall (fun e => fst e = true) E).
+Proof.
+  intros L E H. induction H as [|v e L E [Hc _] _ IH]; split; intro A; try constructor;
+    inversion A; subst; try (apply IH; assumption); congruence.
+Qed.
+
+Lemma bridge_sound : forall is_seq L E, Forall2 corr L E ->
+  (forall v nv, run_pair is_seq L v nv -> disjoint (ntags m (n_kind v)) (ntags m (n_kind nv))) ->
+  pairs_ok is_seq E.
+Proof.
+  intros is_seq L E F H E1 a pre b post Eq C. subst E.
+  apply Forall2_app_inv_r in F. destruct F as [L1 [L' [F1 [F' EqL]]]].
+  inversion F' as [|v a' Lr Er Cva Fr]; subst.
+  apply Forall2_app_inv_r in Fr. destruct Fr as [Lpre [L'' [Fpre [F'' EqR]]]].
+  inversion F'' as [|nv b' Lpost Epost Cnb Fpost]; subst.
+  assert (R : run_pair is_seq (L1 ++ v :: Lpre ++ nv :: Lpost) v nv).
+  { exists L1, (Lpre ++ nv :: Lpost). split; [reflexivity|]. split.
+    - intro S. destruct (C S) as [C1 _]. destruct Cva as [O _]. congruence.
+    - exists Lpre, Lpost. split; [reflexivity|]. intro S. destruct (C S) as [_ C2].
+      apply (corr_all_opt _ _ Fpre). exact C2. }
+  specialize (H v nv R). intros x Ha Hb.
+  destruct Cva as [_ Ia]. destruct Cnb as [_ Ib].
+  apply (H x); [apply Ia; exact Ha | apply Ib; exact Hb].
+Qed.
+
+Lemma bridge_complete : forall is_seq L E, Forall2 corr L E -> pairs_ok is_seq E ->
+  forall v nv, run_pair is_seq L v nv -> disjoint (ntags m (n_kind v)) (ntags m (n_kind nv)).
+Proof.
+  intros is_seq L E F H v nv [L1 [rest [EqL [Ov [Lpre [Lpost [EqR Opre]]]]]]]. subst L rest.
+  apply Forall2_app_inv_l in F. destruct F as [E1 [E' [F1 [F' EqE]]]].
+  inversion F' as [|v' a Lr Er Cva Fr]; subst.
+  apply Forall2_app_inv_l in Fr. destruct Fr as [Epre [E'' [Fpre [F'' EqR]]]].
+  inversion F'' as [|nv' b Lp Epost Cnb Fpost]; subst.
+  assert (D : disjoint (snd a) (snd b)).
+  { eapply H; [reflexivity|]. intro S. split.
+    - destruct Cva as [O _]. rewrite <- O. apply Ov. exact S.
+    - apply (corr_all_opt _ _ Fpre). apply Opre. exact S. }
+  intros x Ha Hb. destruct Cva as [_ Ia]. destruct Cnb as [_ Ib].
+  apply (D x); [apply Ia; exact Ha | apply Ib; exact Hb].
+Qed.
+
+(* the member list of the model against the entries of the specification *)
+Lemma members_entries : forall p r1 ext r2,
+  let auto := sp_auto m r1 (adds_of ext) r2 in
+  Forall2 corr (members (m_tagging m) p r1 ext r2)
+    (entries m auto 0 (r1 ++ r2) ++
+     match ext with Some _ => [marker_entry] | None => [] end ++
+     entries m auto (length (r1 ++ r2)) (adds_of ext)).
+Proof.
+  intros p r1 ext r2 auto. unfold members. rewrite auto_eq. fold auto. unfold root_of.
+  apply Forall2_app; [apply mk_nodes_entries|].
+  destruct ext as [a|]; simpl.
+  - constructor; [apply marker_corr | apply mk_nodes_entries].
+  - constructor.
+Qed.
+End Bridge.
